@@ -1352,3 +1352,20 @@ func SpecRdbBuffered(r *memoryRdb) int64 { panic("abstract spec function") }
 //@   requires nonnil: ro != nil
 //@   modifies nothing
 //@   ensures configured: result == ro.cfg.BisyncEnabled
+
+// ---- helpers of the bidirectional path that only read their arguments (trusted frames: a digest / a
+// summary text / a decoded marker is computed from the commands, nothing that existed before is
+// written). With a frame, a function under contract that starts to consult one of them stays
+// verifiable and is judged by its own postconditions. ----
+//@ func bisyncDigest(cmds) (d)
+//@   trusted frame: reads the commands, returns a fresh text
+//@   modifies nothing
+//@ func bisyncCommandSummary(cmds) (s)
+//@   trusted frame: reads the commands, returns a fresh text
+//@   modifies nothing
+//@ func bisyncTxnDebugSummary(cmds) (s)
+//@   trusted frame: reads the commands, returns a fresh text
+//@   modifies nothing
+//@ func parseBisyncMarkerCommand(cmd) (m, ok)
+//@   trusted frame: decodes a marker into a fresh object
+//@   modifies nothing
